@@ -18,6 +18,7 @@ definitions (Tian & Pearl 2002; Pearl 2009 eq. 3.10), not from the Lean model.
 from __future__ import annotations
 
 import itertools as itt
+import math
 import random
 from fractions import Fraction as F
 
@@ -119,8 +120,8 @@ class Scm:
             cl.setdefault(find(v), []).append(v)
         return list(cl.values())
 
-    def _q_class(self, C):
-        """Q[C] for a latent-connected class: table over C ∪ pa(C)"""
+    def _q_class_slow(self, C):
+        """reference implementation of `_q_class` with Fractions throughout (kept for the self-test)"""
         C = sorted(C)
         scope = tuple(sorted(set(C) | {p for v in C for p in self.pa[v]}))
         lats = sorted({u for v in C for u in self.lat_of[v]})
@@ -143,6 +144,58 @@ class Scm:
                     p *= self.kern[v][key][asg[pos[v]]]
                 tot += p
             out[asg] = tot
+        return Table(scope, out)
+
+    def _int_kern(self, v):
+        """the kernel of v as integers over one common denominator: (denominator, {key: [numerators]})"""
+        cache = self.__dict__.setdefault("_kint", {})
+        if v not in cache:
+            d = 1
+            for row in self.kern[v].values():
+                for f in row:
+                    d = math.lcm(d, f.denominator)
+            cache[v] = (d, {key: [int(f * d) for f in row] for key, row in self.kern[v].items()})
+        return cache[v]
+
+    def _q_class(self, C):
+        """Q[C] for a latent-connected class: table over C ∪ pa(C).  Same sum as `_q_class_slow`, computed with
+        integer numerators over common denominators (exact; one Fraction per table entry)."""
+        C = sorted(C)
+        scope = tuple(sorted(set(C) | {p for v in C for p in self.pa[v]}))
+        lats = sorted({u for v in C for u in self.lat_of[v]})
+        out = {}
+        lat_asgs = list(itt.product(*[range(self.lcard[u]) for u in lats]))
+        den = 1
+        pint = {}
+        for u in lats:
+            d = 1
+            for f in self.prior[u]:
+                d = math.lcm(d, f.denominator)
+            pint[u] = [int(f * d) for f in self.prior[u]]
+            den *= d
+        lat_w = []
+        for la in lat_asgs:
+            w = 1
+            for u, k in zip(lats, la):
+                w *= pint[u][k]
+            lat_w.append(w)
+        pos = {v: i for i, v in enumerate(scope)}
+        lpos = {u: i for i, u in enumerate(lats)}
+        kint = {}
+        for v in C:
+            d, tab = self._int_kern(v)
+            den *= d
+            kint[v] = tab
+        # per variable: positions of its parents in the scope, of its latents in the latent tuple, of itself
+        plan = [(kint[v], [pos[q] for q in self.pa[v]], [lpos[u] for u in self.lat_of[v]], pos[v]) for v in C]
+        for asg in _assignments(scope, self.card):
+            tot = 0
+            for la, w in zip(lat_asgs, lat_w):
+                p = w
+                for tab, pp, lp, pv in plan:
+                    p *= tab[tuple([asg[i] for i in pp] + [la[i] for i in lp])][asg[pv]]
+                tot += p
+            out[asg] = F(tot, den)
         return Table(scope, out)
 
     def q_table(self, S):
